@@ -34,7 +34,7 @@ type C17Scenario struct {
 func genC17(g *Gen) any {
 	sc := &C17Scenario{NUsers: g.Int(1, 2)}
 	for u := 0; u < sc.NUsers; u++ {
-		sc.Caps = append(sc.Caps, g.Pick(1, 2, 4, 10))
+		sc.Caps = append(sc.Caps, g.Pick(1, 2, 4, 10, 0)) // (0: even a first session is refused)
 	}
 	nc := g.Int(1, 5)
 	for i := 0; i < nc; i++ {
